@@ -480,6 +480,149 @@ def d4_absent(chk: Check) -> None:
                                      "one".format(src(t.left)))
 
 
+DOC_ANNOTATIONS = ("Any", "CommentedMap", "CommentedSeq", "CommentedSet",
+                   "list", "dict", "set")
+
+
+def _doc_params(fi: FuncInfo) -> Set[str]:
+    out: Set[str] = set()
+    a = fi.node.args
+    for arg in a.posonlyargs + a.args + a.kwonlyargs:
+        if arg.arg == "self" or arg.annotation is None:
+            continue
+        if src(arg.annotation).split("[")[0] in DOC_ANNOTATIONS:
+            out.add(arg.arg)
+    return out
+
+
+def _truth_operands(test: ast.AST) -> List[ast.AST]:
+    """Expressions whose *truthiness* the test consults."""
+    out: List[ast.AST] = []
+    stack = [test]
+    while stack:
+        e = stack.pop()
+        if isinstance(e, ast.BoolOp):
+            stack.extend(e.values)
+        elif isinstance(e, ast.UnaryOp) and isinstance(e.op, ast.Not):
+            stack.append(e.operand)
+        elif isinstance(e, (ast.Name, ast.Attribute, ast.Subscript)):
+            out.append(e)
+    return out
+
+
+def _tests_of(fn: ast.AST) -> List[ast.AST]:
+    out: List[ast.AST] = []
+    for n in walk_local(fn):
+        if isinstance(n, (ast.If, ast.While, ast.IfExp)):
+            out.append(n.test)
+        elif isinstance(n, ast.comprehension):
+            out.extend(n.ifs)
+        elif isinstance(n, ast.Assert):
+            out.append(n.test)
+    return out
+
+
+def falsy_and_absent_sites(fn: ast.AST, doc_params: Set[str],
+                           skip_receivers: Set[str],
+                           containers: Set[str] = frozenset()  # type: ignore
+                           ) -> Tuple[List[Tuple[ast.AST, str]], int]:
+    """(violations, number of tests examined): truthiness decisions on a
+    document value, and None-tests on the result of a defaultless .get()."""
+    from sa.kinds import DocTaint
+
+    class _F:           # the taint walker needs only .node
+        pass
+    holder = _F()
+    holder.node = fn    # type: ignore[attr-defined]
+    taint = DocTaint(holder, set(doc_params))  # type: ignore[arg-type]
+    bad: List[Tuple[ast.AST, str]] = []
+    got: Dict[str, ast.Call] = {}
+    for n in walk_local(fn):
+        if isinstance(n, ast.Assign) and len(n.targets) == 1 and \
+                isinstance(n.targets[0], ast.Name) and \
+                _is_defaultless_get(n.value, skip_receivers):
+            got[n.targets[0].id] = n.value   # type: ignore[assignment]
+    tests = _tests_of(fn)
+    for t in tests:
+        for e in _truth_operands(t):
+            if isinstance(e, ast.Name) and e.id in containers:
+                continue    # emptiness of a value annotated as a container
+            if taint.is_doc(e) and not (isinstance(e, ast.Name) and
+                                        e.id in got):
+                bad.append((e, "branches on the truthiness of the document "
+                            "value `{}`: 0, false, '' and empty containers "
+                            "are treated like an absent value".format(
+                                src(e))))
+            elif isinstance(e, ast.Name) and e.id in got:
+                bad.append((e, "`{}` comes from `{}`; its truthiness "
+                            "conflates a missing key, a null and every "
+                            "falsy value".format(e.id, src(got[e.id]))))
+        for c in ast.walk(t):
+            if isinstance(c, ast.Compare) and len(c.ops) == 1 and \
+                    isinstance(c.ops[0], (ast.Is, ast.IsNot)) and \
+                    src(c.comparators[0]) == "None":
+                if isinstance(c.left, ast.Name) and c.left.id in got:
+                    bad.append((c, "`{}` comes from `{}`: `is None` cannot "
+                                "tell a missing key from a key holding "
+                                "null".format(c.left.id,
+                                              src(got[c.left.id]))))
+                elif _is_defaultless_get(c.left, skip_receivers):
+                    bad.append((c, "`is None` on a defaultless .get(): a "
+                                "missing key and a null value are "
+                                "conflated"))
+    return bad, len(tests)
+
+
+def _is_defaultless_get(e: Optional[ast.AST], skip: Set[str]) -> bool:
+    return isinstance(e, ast.Call) and isinstance(e.func, ast.Attribute) \
+        and e.func.attr == "get" and \
+        (len(e.args) == 1 or (len(e.args) == 2 and
+                              src(e.args[1]) == "None")) and \
+        not e.keywords and src(e.func.value) not in skip and \
+        not src(e.func.value).startswith("self.")
+
+
+_POSITIVE = """
+def f(self, path, data: Any, lhs: CommentedMap, key):
+    if data:
+        pass
+    for ele in lhs:
+        if not ele:
+            pass
+    a = lhs.get(key)
+    if a is None:
+        pass
+"""
+
+
+def d4b_falsy(chk: Check) -> None:
+    prog = chk.prog
+    chk.rule("C06-D4b", "no comparer decides on the truthiness of a document "
+             "value, or on `is None` of a defaultless .get(): falsy scalars "
+             "(0, false, '') and nulls are values, a missing key is not",
+             floor=12)
+    # the detector must fire on a known-bad sample on every run
+    sample = ast.parse(_POSITIVE).body[0]
+    from sa.model import set_parents
+    set_parents(sample)
+    hits, _ = falsy_and_absent_sites(sample, {"data", "lhs"}, set())
+    if len(hits) != 3:
+        raise AnalysisError("falsy/absent detector lost its positive "
+                            "sample ({} of 3)".format(len(hits)))
+    for fi in prog.funcs_in(DIFFER):
+        kw = fi.node.args.kwarg.arg if fi.node.args.kwarg else ""
+        conts = {a.arg for a in fi.node.args.args
+                 if a.annotation is not None and
+                 src(a.annotation).split("[")[0] in DOC_ANNOTATIONS[1:]}
+        bad, n = falsy_and_absent_sites(fi.node, _doc_params(fi),
+                                        {kw} if kw else set(), conts)
+        for node, why in bad:
+            chk.fail("C06-D4b", fi, node, src(node)[:60], why)
+        chk.ok("C06-D4b", fi, fi.node, "{} test(s) in {}".format(
+            n, fi.short), "none consults the truthiness of a document value",
+            False)
+
+
 # ---------------------------------------------------------------- D5 ------
 def d5_both_sides(chk: Check) -> None:
     prog = chk.prog
@@ -555,5 +698,6 @@ def run(chk: Check) -> None:
     d2_dispatch(chk)
     d3_modes(chk)
     d4_absent(chk)
+    d4b_falsy(chk)
     d5_both_sides(chk)
     d6_exit_and_ladders(chk)
